@@ -69,7 +69,7 @@ def expected_bits(count, n, res):
 
 
 def correspond(run):
-    n = 400 if run.tier == "quick" else 4000
+    n = 400 if run.depth == "quick" else 4000
     rc, js, out, err = vlib.harness(["est-cases", "--seed", run.seed, "--n", n], timeout=900)
     if rc != 0 or js is None:
         run.oblige("correspondence:est-cases", "correspondence", False, (out + err)[-800:])
@@ -137,9 +137,9 @@ def correspond(run):
                "%d cases differ; first: %s" % (len(bad), json.dumps(bad[0])[:500] if bad else ""))
 
     # MLE: outcome class and range
-    rounds = 1 if run.tier == "quick" else 6
+    rounds = 1 if run.depth == "quick" else 6
     rc, js, out, err = vlib.harness(["mle-cases", "--seed", run.seed, "--n", rounds,
-                                     "--big", 100000 if run.tier == "quick" else 1000000], timeout=1800)
+                                     "--big", 100000 if run.depth == "quick" else 1000000], timeout=1800)
     if rc != 0 or js is None:
         run.oblige("correspondence:mle-cases", "correspondence", False, (out[-400:] + err[-400:]))
         return
